@@ -13,9 +13,9 @@
 using namespace vf;
 static Scratch g_scr;
 
-enum Kind { K_KEY = 0, K_VALUE, K_CONT, K_SECTION, K_CB_LONG, K_CB_MANY, K_CA, K_CONFIG_NAME, K_SUFFIX, K_DROPIN_NAME, K_DIR_NAME, K_TOTAL_PATH, K_OPTION_ITEM, K_NKINDS };
+enum Kind { K_KEY = 0, K_VALUE, K_CONT, K_SECTION, K_CB_LONG, K_CB_MANY, K_CA, K_CONFIG_NAME, K_SUFFIX, K_DROPIN_NAME, K_DIR_NAME, K_TOTAL_PATH, K_OPTION_ITEM, K_POSTFIX, K_NKINDS };
 static const char *const KN[K_NKINDS] = {"key", "value", "continuation_line", "section", "comment_before_long_line", "comment_before_many_lines",
-                                         "comment_after", "config_name", "suffix", "dropin_name", "dir_name", "total_path", "option_item"};
+                                         "comment_after", "config_name", "suffix", "dropin_name", "dir_name", "total_path", "option_item", "dropin_dir_postfix"};
 enum Path { P_GETTERS = 0, P_EXT, P_MERGE, P_WRITE_READ, P_LAYERED, P_SET_WRITE_READ, P_NPATHS };
 static const char *const PN[P_NPATHS] = {"read_getters_listings", "read_extended_getter", "read_merge_getters", "read_write_read", "layered_read_callback", "set_write_read"};
 
@@ -26,6 +26,7 @@ static std::vector<size_t> lengths_for(int kind) {
   if (kind == K_CB_MANY) return {1, B - 2, B - 1, B, B + 1, B + 2, 2 * B, 65536};
   if (kind <= K_CA) return {1, B - 2, B - 1, B, B + 1, B + 2, 2 * B, 65536, 1048576};
   if (kind == K_OPTION_ITEM) return {1, B - 1, B, B + 1, 2 * B, 65536};
+  if (kind == K_POSTFIX) return {1, 16, NAME_MAX - 1, NAME_MAX};  // the postfix is "/" + that many characters
   if (kind == K_TOTAL_PATH) return {PATH_MAX - 3, PATH_MAX - 2, PATH_MAX - 1, PATH_MAX, PATH_MAX + 1, PATH_MAX + 2};
   return {1, NAME_MAX - 1, NAME_MAX, NAME_MAX + 1};  // name kinds: length of the whole name component
 }
@@ -35,6 +36,7 @@ static bool path_applies(int kind, int path) {
     return true;
   }
   if (kind == K_TOTAL_PATH) return path == P_GETTERS;
+  if (kind == K_POSTFIX) return path == P_GETTERS || path == P_LAYERED;  // list given as CONFIG_DIRS item / process-wide
   return path == P_LAYERED;  // names, directories, option items matter for the layered read
 }
 
@@ -394,6 +396,27 @@ static void run_cell(int kind, size_t len, int path, unsigned salt) {
           SAME("econf_getPath of the deep file read by relative name", ps2, full);
         }
         g_case.tag("deep_relative_name");
+        // a parse error in a file with such a name: the error location names the whole path
+        {
+          int ef = openat(deep_fd, "e.conf", O_WRONLY | O_CREAT | O_TRUNC, 0644);
+          const char bad[] = "ok=1\n[broken\n";
+          bool wrote = ef >= 0 && write(ef, bad, sizeof bad - 1) == (ssize_t)(sizeof bad - 1);
+          if (ef >= 0) close(ef);
+          if (wrote) {
+            std::string efull = dir + "/e.conf";
+            econf_file *k3 = (econf_file *)-1;
+            econf_err e3 = econf_readFile(&k3, efull.c_str(), "=", "#");
+            if (e3 == ECONF_SUCCESS && k3 && k3 != (econf_file *)-1) econf_freeFile(k3);
+            VF_CHECK(e3 == ECONF_MISSING_BRACKET, "wrong-code", "malformed deep file: rc=" << e3);
+            char *fn = nullptr;
+            uint64_t ln = 0;
+            econf_errLocation(&fn, &ln);
+            std::string fns = fn ? fn : "";
+            free(fn);
+            SAME("econf_errLocation file name of the deep file", fns, efull);
+            VF_CHECK(ln == 2, "wrong-location", "error line " << ln << " expected 2");
+          }
+        }
       } else if (back >= 0)
         close(back);
     } else {
@@ -403,6 +426,49 @@ static void run_cell(int kind, size_t len, int path, unsigned salt) {
       VF_CHECK(e != ECONF_SUCCESS, "too-long-path-accepted", "path of " << full.size() << " characters (>= PATH_MAX) was read successfully");
       VF_CHECK(!handed, "partial-result", "object handed back for an over-long path");
     }
+    return;
+  }
+
+  if (kind == K_POSTFIX) {
+    // a list of drop-in directory postfixes: a short one first, a long one ("/" + len characters: the directory
+    // <name>/<long>) after it, a short one again; every one of the three directories holds a drop-in
+    const std::string longp = "/" + filler(len, salt, '-');
+    const std::string ldir = R + "/etc";
+    mkdir_p(ldir + "/cfg.d");
+    mkdir_p(ldir + "/cfg" + longp);
+    mkdir_p(ldir + "/cfg/z.d");
+    bool ok = write_file(ldir + "/cfg.conf", "m=main\n") && write_file(ldir + "/cfg.d/10-a.conf", "a=short\n") &&
+              write_file(ldir + "/cfg" + longp + "/20-b.conf", "b=long\n") && write_file(ldir + "/cfg/z.d/30-c.conf", "c=last\n");
+    VF_CHECK(ok, "harness", "could not create the postfix directories");
+    econf_file *kf = nullptr;
+    econf_err e;
+    if (path == P_GETTERS) {
+      e = econf_newKeyFile_with_options(&kf, ("PARSING_DIRS=" + ldir + ";CONFIG_DIRS=.d:" + longp + ":/z.d").c_str());
+      VF_CHECK(e == ECONF_SUCCESS && kf, "option-refused", "CONFIG_DIRS with a postfix of " << longp.size() << " characters: rc=" << e);
+      e = econf_readConfig(&kf, nullptr, nullptr, "cfg", "conf", "=", "#");
+    } else {
+      const char *list[4] = {".d", longp.c_str(), "/z.d", nullptr};
+      const char *none[1] = {nullptr};
+      econf_set_conf_dirs(list);
+#pragma GCC diagnostic push
+#pragma GCC diagnostic ignored "-Wdeprecated-declarations"
+      e = econf_readDirs(&kf, nullptr, ldir.c_str(), "cfg", "conf", "=", "#");
+#pragma GCC diagnostic pop
+      econf_set_conf_dirs(none);
+    }
+    if (e != ECONF_SUCCESS) {
+      if (kf) econf_freeFile(kf);
+      VF_FAIL("read-failed", "layered read with the postfix list {.d, /<" << len << " characters>, /z.d}: rc=" << e << " (" << econf_errString(e) << ")");
+    }
+    std::string got;
+    for (const char *k : {"m", "a", "b", "c"}) {
+      char *v = nullptr;
+      econf_getStringValue(kf, nullptr, k, &v);
+      got += std::string(k) + "=" + (v ? v : "<none>") + " ";
+      free(v);
+    }
+    econf_freeFile(kf);
+    SAME("configuration read through the postfix list", got, std::string("m=main a=short b=long c=last "));
     return;
   }
 
